@@ -57,7 +57,7 @@ theorem C05_unsampled_root (s : Sys) (t : Nat) (v n : String) (tr sp : Nat) (hr 
     (exec s t (.root v n tr sp false)).1.nextCollect = s.nextCollect ∧
     ∃ inner, assocGet (exec s t (.root v n tr sp false)).1.spans v = some (some inner) ∧
       inner.token = [⟨tr, sp, Consts.notSampledCollectId, true, false⟩] := by
-  simp [exec, hr, Sys.newSpan, assocGet_assocSet_same]
+  simp [exec, Sys.rootOp, hr, Sys.newSpan, assocGet_assocSet_same]
 
 /-- **the filter**: what `submit_spans` hands to the channel contains sampled items only, in
     order, and nothing is handed over when no item is sampled -/
